@@ -76,7 +76,7 @@ def sprite_extraction(F, S):
         out.append(bad("R-ORDER", inst, ex.loc(ex.body), ex.qn, "the (refusable) pixel window is created before memory of that size is allocated", "allocation precedes the slice"))
     # palette copy: source index validated at load time, copy length bounded by both palettes
     g = F.fn(SL + "::GetPalette", nparams=1)
-    cp = [nd for nd in g.nodes if nd["k"] in CALLS and (nd.get("fq") or "") == "std::copy"]
+    cp = [nd for nd in g.nodes if nd["k"] in CALLS and (nd.get("fq") or "") in ("std::copy", "std::copy_n")]
     inst = SL + "::GetPalette#copy-extent"
     req = "the number of colours copied is the destination size 1 << bitCount with bitCount in {1, 8}, never more than the 256-entry source"
     good = False
@@ -98,7 +98,10 @@ def sprite_extraction(F, S):
         detail = "copy(%s, %s, %s); destination %s" % (fmt_term(a[0]), fmt_term(a[1]), fmt_term(a[2]), fmt_term(dst_n) if dst_n else "?")
         # end iterator = begin + palette.size(); destination constructed with (1 << bitCount); bitCount = isShadow ? 1 : 8
         end_ok = False
-        if pal:
+        if pal and cp[0]["fq"] == "std::copy_n":
+            # copy_n(first, count, out): the count itself
+            end_ok = a[1] == ("size", pal[0])
+        elif pal:
             if a[1][0] == "opcall" and a[1][1] == "+":
                 end_ok = a[1][2][0] == a[0] and a[1][2][1] == ("size", pal[0])
             elif a[1][0] == "op" and a[1][1] == "+":
